@@ -116,12 +116,24 @@ KNOWN_INTERNAL = {
 }
 
 
+# even the 'all' view keeps these as calls: the rules recognise them by name
+NEVER_INLINE = {
+    "sign::sig_structure_data", "mac::mac_structure_data", "encrypt::enc_structure_data", "util::cbor_type_error",
+    "common::read_to_value", "header::ProtectedHeader::cbor_bstr", "header::ProtectedHeader::from_cbor_bstr",
+    "header::ProtectedHeader::from_cbor_bstr_depth", "header::Header::is_empty", "header::ProtectedHeader::is_empty",
+    "header::Header::from_cbor_value_depth", "sign::CoseSignature::from_cbor_value_depth",
+}
+
+
 class Program:
-    def __init__(self, path, expect_nonce=None, inline=True):
-        if not os.path.exists(path):
-            raise FactsError("fact file %s missing (driver did not run)" % path)
-        with open(path) as f:
-            self.d = json.load(f)
+    def __init__(self, path, expect_nonce=None, inline=True, data=None):
+        if data is not None:
+            self.d = data
+        else:
+            if not os.path.exists(path):
+                raise FactsError("fact file %s missing (driver did not run)" % path)
+            with open(path) as f:
+                self.d = json.load(f)
         self.meta = self.d["meta"]
         if expect_nonce is not None and self.meta.get("nonce") != expect_nonce:
             raise FactsError("stale fact file: nonce %r != expected %r" % (self.meta.get("nonce"), expect_nonce))
@@ -135,17 +147,30 @@ class Program:
         self.no_inline = _spec_functions() | KNOWN_INTERNAL
         self._helper_memo = {}
         self.fully_inlined = set()
+        self.inline_mode = inline
+        self._views = {}
         if inline:
             from . import inline as _inline
             _inline.inline_program(self)
+
+    def view(self, mode):
+        """the same program with another inlining policy: 'all' = every crate-local free function / inherent method
+        (public ones too) is inlined into its callers, for rules about the NET effect of a public function"""
+        if mode == self.inline_mode:
+            return self
+        if mode not in self._views:
+            self._views[mode] = Program(self.path, inline=mode, data=self.d)
+        return self._views[mode]
 
     # ---- crate-private helper functions -----------------------------------------------------------------
     def is_private_helper(self, key):
         """a module-private free function / inherent method that no spec table names: rules look THROUGH such
         functions (they are an implementation detail a refactoring may introduce or remove at will)"""
         f = self.fns.get(key)
-        if f is None or f.kind not in ("Fn", "AssocFn") or not f.blocks or f.impl_trait or f.trait_default_of:
+        if f is None or f.kind not in ("Fn", "AssocFn") or not f.d.get("blocks") or f.impl_trait or f.trait_default_of:
             return False
+        if self.inline_mode == "all":
+            return key not in NEVER_INLINE
         if key in self.no_inline:
             return False
         return not f.is_pub and f.d.get("vis", "").startswith("Restricted(")
@@ -207,14 +232,6 @@ def short(s, n=160):
 
 
 def _spec_functions():
-    """function keys that the spec tables / rules refer to by name (never inlined)"""
-    out = set()
-    try:
-        from spec import rfc8152, panics, builders
-        out |= set(rfc8152.ROUTING) | set(rfc8152.HELPERS) | set(rfc8152.STRUCTURES)
-        out |= {v["text"] for v in rfc8152.STRUCTURES.values()}
-        out |= {k[0] for k in panics.DOCUMENTED} | {k[0] for k in panics.INVARIANT}
-        out |= set(builders.EFFECTS) | set(builders.GUARDS) | set(builders.KEY_CONSTRUCTORS)
-    except Exception:
-        pass
-    return out
+    """(historical) crate-private functions that rules name: none any more - rules anchor on public API and on
+    KNOWN_INTERNAL; everything else that is not `pub` is a helper and is inlined"""
+    return set()
